@@ -105,6 +105,15 @@ func runC11Seq(drv int, ops []*SOp) (string, []*SOp, []string) {
 }
 
 func runC11(ctx *Ctx) {
+	if ctx.Want(990000) {
+		if ctx.Thorough() {
+			done := make(chan struct{})
+			go func() { defer close(done); c11NoLapse(ctx, 990000) }()
+			defer func() { <-done }()
+		} else {
+			c11NoLapse(ctx, 990000)
+		}
+	}
 	nseq := ctx.N(200, 5000)
 	var wg sync.WaitGroup
 	sem := make(chan struct{}, 12)
